@@ -24,8 +24,10 @@ LEVEL_NOTE = ("Trusted: Coq kernel + stdlib real axioms (reported); translator (
               "hand-written model coq/C14/Config.v validated by correspondence; the relational harness tools/impl/c14_impl.py. "
               "dtype via .to() is exercised on the implementation only (float32 vs float64 runs agree to 1e-4), not modelled.")
 IMPL = os.path.join(F.VERIF, "tools", "impl", "c14_impl.py")
-HEADER = ("From Coq Require Import List ZArith Bool PrimFloat.\nFrom Inferno Require Import Base.Num Base.NumF C14.Config C14.ConfigExec.\n"
-          "Import ListNotations.\n")
+HEADER = ("From Coq Require Import List ZArith Bool PrimFloat.\n"
+          "From Inferno Require Import Base.Num Base.NumF C01.Ring C01.RingExec C13.Shaped C13.Resize C13.ResizeExec "
+          "C14.Config C14.RecordCfg C14.Batch C14.Reducer C14.Conn C14.ConfigExec.\n"
+          "Import ListNotations.\nOpen Scope Z_scope.\n")
 REDUCERS = ["NearestTraceReducer", "CumulativeTraceReducer", "PassthroughReducer", "EventReducer", "EMAReducer", "CAReducer"]
 DTS = [1.0, 0.5, 0.25, 1.3, 0.1, 2.0]
 
@@ -95,41 +97,422 @@ def gen_model_cases(rng, n):
     return cases
 
 
-def q_model(c):
+# ---- extended model families: RecordTensor level, reducers, synapses with contents, connections, neurons' batch size
+SYN_DS = {"DeltaCurrent": [0], "DeltaPlusCurrent": [2, 0], "SingleExponentialCurrent": [2, 0],
+          "DoubleExponentialCurrent": [2, 2, 0]}          # data types of the histories, attribute names sorted
+NEURON_TENSORS = [("refrac_", 2, 0), ("voltage_", 2, -120)]   # (name, data type, fill in halves): rest_v = -60
+BAD_DT = [0.0, -1.0]
+
+
+def nel(sh):
+    n = 1
+    for x in sh:
+        n *= x
+    return n
+
+
+def rand_els(rng, d, n, zero=False):
+    if zero:
+        return [0] * n
+    if d == 0:
+        return [rng.choice([0, 2]) for _ in range(n)]
+    if d == 1:
+        return [2 * rng.randint(-3, 3) for _ in range(n)]
+    return [rng.randint(-6, 6) for _ in range(n)]
+
+
+def gen_record_model(rng):
+    dt = rng.choice(DTS)
+    dur = rng.choice([0.0, dt, 2.5 * dt, 3 * dt, 0.3])
+    d = rng.choice([0, 1, 2])
+    shape = rng.choice([[2], [2, 2], [], [1, 3]])
+    kind = rng.choice(["init", "init", "init", "none", "empty"])
+    ucons = []
+    if kind == "init":
+        value = ["t", d, shape, rand_els(rng, d, nel(shape), zero=rng.random() < 0.5)]
+        if shape and rng.random() < 0.4:
+            ucons = [[0, shape[0]]] if rng.random() < 0.5 else [[-1, shape[-1]]]
+    elif kind == "empty":
+        value = ["t", d, [0], []]
+    else:
+        value = None
+    ops = []
+    for _ in range(rng.randint(1, 7)):
+        k = rng.choice(["dt", "dt", "dur", "dur", "incl", "push"])
+        if k == "dt":
+            ops.append(["dt", rng.choice(BAD_DT) if rng.random() < 0.15 else rng.choice(DTS)])
+        elif k == "dur":
+            x = rng.choice(DTS)
+            ops.append(["dur", -0.5 if rng.random() < 0.15 else rng.choice([0.0, x, 2.5 * x, 3 * x, 3 * 0.1])])
+        elif k == "incl":
+            ops.append(["incl", rng.random() < 0.5])
+        else:
+            od = d if rng.random() < 0.7 else rng.choice([0, 1, 2])
+            osh = shape if rng.random() < 0.9 else [3]
+            ops.append(["push", od, osh, rand_els(rng, od, nel(osh))])
+    return {"family": "record_model", "strict": True, "ucons": ucons, "dt": dt, "dur": dur, "incl": rng.random() < 0.5,
+            "value": value, "ops": ops}
+
+
+def gen_red_model(rng, i):
+    dt = rng.choice(DTS)
+    cls = REDUCERS[i % len(REDUCERS)]
+    spec = {"cls": cls, "dt": dt, "duration": rng.choice([0.0, dt, 3 * dt, 2.5 * dt]), "inclusive": rng.random() < 0.5,
+            "inplace": rng.random() < 0.5, "tc": rng.choice([20.0, 7.5])}
+    ops = []
+    for _ in range(rng.randint(1, 7)):
+        k = rng.choice(["dt", "dur", "inplace", "obs", "obs", "clear"])
+        x = rng.choice(DTS)
+        if k == "dt":
+            ops.append(["dt", rng.choice(BAD_DT) if rng.random() < 0.15 else x])
+        elif k == "dur":
+            ops.append(["dur", -0.5 if rng.random() < 0.15 else rng.choice([0.0, x, 2.5 * x, 3 * x])])
+        elif k == "inplace":
+            ops.append(["inplace", rng.random() < 0.5])
+        elif k == "obs":
+            ops.append(["obs", [2, 3] if rng.random() < 0.9 else [4]])
+        else:
+            ops.append(["clear", rng.random() < 0.4])
+    return {"family": "red_model", "spec": spec, "ops": ops}
+
+
+def syn_ops(rng, n, steps=True):
+    ops = []
+    for _ in range(n):
+        k = rng.choice(["dt", "delay", "batchsz", "batchsz", "inplace"] + (["step"] if steps else []))
+        x = rng.choice(DTS)
+        if k == "dt":
+            ops.append(["dt", rng.choice(BAD_DT) if rng.random() < 0.15 else x])
+        elif k == "delay":
+            ops.append(["delay", -0.5 if rng.random() < 0.15 else rng.choice([0.0, x, 2.5 * x, 3 * x, 3 * 0.1])])
+        elif k == "batchsz":
+            ops.append(["batchsz", rng.choice([1, 2, 3, 5, 0, -2])])
+        elif k == "inplace":
+            ops.append(["inplace", rng.random() < 0.5])
+        else:
+            ops.append(["step"])
+    return ops
+
+
+def gen_scomp_model(rng, i):
+    dt = rng.choice(DTS)
+    spec = {"cls": c11.SYNAPSES[i % 4], "shape": rng.choice([[2], [2, 2]]), "dt": dt, "delay": rng.choice([0, 1, 3]) * dt,
+            "batch": rng.choice([1, 2]), "inplace": rng.random() < 0.5}
+    return {"family": "scomp_model", "spec": spec, "ops": syn_ops(rng, rng.randint(1, 6))}
+
+
+def gen_conn_model(rng, i):
+    dt = rng.choice(DTS)
+    cls = ["LinearDense", "LinearDirect", "LinearLateral", "Conv2D"][i % 4]
+    delay = rng.choice([None, 2 * dt])
+    spec = dict(c11.conn_spec(rng, cls, dt, delay), batch=rng.choice([1, 2]))
+    cur = {"dt": dt, "delay": 0.0 if delay is None else delay, "batch": spec["batch"]}
+    ops = []
+    for _ in range(rng.randint(1, 6)):
+        k = rng.choice(["dt", "batchsz", "batchsz", "synapse", "step"])
+        if k == "dt":
+            v = rng.choice(BAD_DT) if rng.random() < 0.15 else rng.choice(DTS)
+            ops.append(["dt", v])
+            if v > 0:
+                cur["dt"] = v
+        elif k == "batchsz":
+            v = rng.choice([1, 2, 3, 0])
+            ops.append(["batchsz", v])
+            if v > 0:
+                cur["batch"] = v
+        elif k == "synapse":
+            if rng.random() < 0.7:
+                o = ["synapse", rng.choice(c11.SYNAPSES), cur["dt"], cur["delay"], cur["batch"], rng.random() < 0.5]
+            else:
+                x = rng.choice(DTS)
+                o = ["synapse", rng.choice(c11.SYNAPSES), rng.choice([x, 0.0]), rng.choice([0.0, 2 * x, -1.0]),
+                     rng.choice([1, 2, 0]), rng.random() < 0.5]
+            ops.append(o)
+            if o[2] > 0 and o[3] >= 0 and o[4] > 0:
+                cur = {"dt": o[2], "delay": o[3], "batch": o[4]}
+        else:
+            ops.append(["step"])
+    return {"family": "conn_model", "spec": spec, "ops": ops}
+
+
+def gen_neuron_model(rng, i):
+    spec = {"cls": c11.NEURONS[i % 8], "shape": rng.choice([[3], [2, 2]]), "dt": rng.choice(DTS), "batch": rng.choice([1, 2])}
+    ops = [rng.choice([1, 2, 3, 5, 0, -1, "step", "step"]) for _ in range(rng.randint(1, 6))]
+    return {"family": "neuron_model", "spec": spec, "ops": ops}
+
+
+def gen_ext_model_cases(rng, n):
+    out = []
+    for i in range(n):
+        k = i % 5
+        out.append([gen_record_model(rng), gen_red_model(rng, i // 5), gen_scomp_model(rng, i // 5), gen_conn_model(rng, i // 5),
+                    gen_neuron_model(rng, i // 5)][k])
+    return out
+
+
+def q_nat(n):
+    return f"{int(n)}%nat"
+
+
+def q_shape(sh):
+    return F.coq_list([q_nat(x) for x in sh])
+
+
+def q_zs(zs):
+    return F.coq_list([str(int(z)) if z >= 0 else f"({int(z)})" for z in zs])
+
+
+def q_sop(o):
     fl = F.coq_float
-    if c["family"] == "synapse_model":
+    return {"dt": lambda: f"SDt FN {fl(o[1])}", "delay": lambda: f"SDelay FN {fl(o[1])}",
+            "batchsz": lambda: f"SBatch FN ({int(o[1])})", "inplace": lambda: f"SInplace FN {F.coq_bool(o[1])}"}[o[0]]()
+
+
+def q_model(c, r=None):
+    fl = F.coq_float
+    fam = c["family"]
+    if fam == "synapse_model":
         s = c["spec"]
         nrec = {"DeltaCurrent": 1, "DeltaPlusCurrent": 2, "SingleExponentialCurrent": 2, "DoubleExponentialCurrent": 3}[s["cls"]]
         ops = []
         for a, v in c["ops"]:
             ops.append({"dt": f"SetDt FN {fl(v)}", "delay": f"SetDelay FN {fl(v)}", "batchsz": f"SetBatch FN ({int(v)})%Z"}[a])
         return f"run_comp {nrec}%nat {fl(s['dt'])} {fl(s['kw']['delay'])} ({s['batch']})%Z {F.coq_list(ops)}"
-    s = c["spec"]
-    ops = [(f"TDt {fl(v)}" if a == "dt" else f"TDur {fl(v)}") for a, v in c["ops"]]
-    return f"run_tred {fl(s['dt'])} {fl(s['tc'])} {fl(s['duration'])} false {F.coq_list(ops)}"
+    if fam == "tred_model":
+        s = c["spec"]
+        ops = [(f"TDt {fl(v)}" if a == "dt" else f"TDur {fl(v)}") for a, v in c["ops"]]
+        return f"run_tred {fl(s['dt'])} {fl(s['tc'])} {fl(s['duration'])} false {F.coq_list(ops)}"
+    if fam == "record_model":
+        v = "None" if c["value"] is None else f"(Some (mkT {c['value'][1]} {q_shape(c['value'][2])} {q_zs(c['value'][3])}))"
+        ops = []
+        for o in c["ops"]:
+            if o[0] == "push":
+                ops.append(f"XPush (mkObs {o[1]} {q_shape(o[2])} {q_zs(o[3])})")
+            else:
+                ops.append("XSet (" + {"dt": lambda: f"RDt FN {fl(o[1])}", "dur": lambda: f"RDur FN {fl(o[1])}",
+                                       "incl": lambda: f"RIncl FN {F.coq_bool(o[1])}"}[o[0]]() + ")")
+        ucons = F.coq_list([f"(({int(k)})%Z, {q_nat(v_)})" for k, v_ in c["ucons"]])
+        return (f"run_record {F.coq_bool(c['strict'])} {ucons} {fl(c['dt'])} {fl(c['dur'])} {F.coq_bool(c['incl'])} {v} "
+                f"{F.coq_list(ops)}")
+    if fam == "red_model":
+        s = c["spec"]
+        ops = []
+        for o in c["ops"]:
+            if o[0] == "obs":
+                ops.append(f"RdObserve FN (mkObs 2 {q_shape(o[1])} {q_zs([0] * nel(o[1]))})")
+            elif o[0] == "clear":
+                ops.append(f"RdClear FN {F.coq_bool(o[1])}")
+            else:
+                ops.append({"dt": lambda: f"RdDt FN {fl(o[1])}", "dur": lambda: f"RdDur FN {fl(o[1])}",
+                            "inplace": lambda: f"RdInplace FN {F.coq_bool(o[1])}"}[o[0]]())
+        return (f"run_red {fl(s['dt'])} {fl(s['duration'])} {F.coq_bool(s['inclusive'])} {F.coq_bool(s['inplace'])} "
+                f"{fl(s['tc'])} {F.coq_list(ops)}")
+    if fam == "scomp_model":
+        s = c["spec"]
+        ops = [q_sop(o) for o in c["ops"] if o[0] != "step"]
+        return (f"run_syn {q_zs(SYN_DS[s['cls']])} {q_shape(s['shape'])} {fl(s['dt'])} {fl(s['delay'])} ({s['batch']}) "
+                f"{F.coq_bool(s['inplace'])} {F.coq_list(ops)}")
+    if fam == "conn_model":
+        s = c["spec"]
+        ops = []
+        for o in c["ops"]:
+            if o[0] == "dt":
+                ops.append(f"KDt FN {fl(o[1])}")
+            elif o[0] == "batchsz":
+                ops.append(f"KBatch FN ({int(o[1])})")
+            elif o[0] == "synapse":
+                ops.append(f"KSyn FN {q_zs(SYN_DS[o[1]])} {fl(o[2])} {fl(o[3])} ({int(o[4])}) {F.coq_bool(o[5])}")
+        delay = "None" if s["delay"] is None else f"(Some {fl(s['delay'])})"
+        return (f"run_conn {q_zs(SYN_DS[s['synapse']['cls']])} {q_shape(r['obs']['shp'])} {fl(s['dt'])} {delay} ({s['batch']}) "
+                f"false {F.coq_list(ops)}")
+    if fam == "neuron_model":
+        s = c["spec"]
+        specs = F.coq_list([f"({d}, ({f}))" for _, d, f in NEURON_TENSORS])
+        vs = F.coq_list([f"({int(v)})" for v in c["ops"] if v != "step"])
+        return f"run_neuron {specs} {q_shape(s['shape'])} ({s['batch']}) {vs}"
+    raise ValueError(fam)
+
+
+def dec_rec(t):
+    ring, cons, dt, dur, incl, valid, ign, par, ucons = t
+    return [ring, sorted(list(x) for x in cons), F.dec_float(dt), F.dec_float(dur), incl, valid, ign, par,
+            sorted(list(x) for x in ucons)]
+
+
+def dec_rec_shape(t):
+    n, p, kind, ucons, dt, dur, incl = t
+    return [n, p, kind, sorted(list(x) for x in ucons), F.dec_float(dt), F.dec_float(dur), incl]
+
+
+def noptr(snap):
+    return [snap[0], None] + list(snap[2:])
+
+
+def dec_scomp(t, full):
+    dt, dl, b, ip, hs = t
+    return [F.dec_float(dt), F.dec_float(dl), b, ip, [dec_rec(h) if full else dec_rec_shape(h) for h in hs]]
+
+
+def scomp_noptr(s):
+    return s[:4] + [[noptr(h) for h in s[4]]]
+
+
+def dec_red(t):
+    dt, dur, incl, ip, decay, initial, rec = t
+    return [F.dec_float(dt), F.dec_float(dur), incl, ip, F.dec_float(decay), initial, dec_rec_shape(rec)]
+
+
+def red_eq(m, i, what):
+    """model reducer snapshot vs implementation's (decay compared numerically, only where the class has one)"""
+    if m[:4] + m[5:] != i[:4] + i[5:]:
+        return f"{what}: model {m} vs implementation {i}"
+    if i[4] is not None and not F.close(m[4], i[4]):
+        return f"{what}: decay model {m[4]} vs implementation {i[4]}"
+    return None
+
+
+def dec_conn(t, full):
+    dt, b, dby, syn, stray = t
+    return [F.dec_float(dt), b, F.dec_float(dby[0]) if dby else None, dec_scomp(syn, full), stray]
+
+
+def dec_nstate(t):
+    b, ts = t
+    return [b, [[sorted(list(x) for x in cons), data, valid, ign, dim, par] for cons, data, valid, ign, dim, par in ts]]
+
+
+def nstate_noflat(n):
+    return [n[0], [[t[0], t[1][:3]] + t[2:] for t in n[1]]]
+
+
+def first_diff(pairs):
+    for what, m, i in pairs:
+        if m != i:
+            return f"{what}: model {m} vs implementation {i}"
+    return None
 
 
 def cmp_model(c, obs, tree):
-    if c["family"] == "synapse_model":
+    fam = c["family"]
+    if fam == "synapse_model":
         dt, dl, b, recs, bdim = tree
         exp = {"dt": F.dec_float(dt), "delay": F.dec_float(dl), "batch": b, "recs": recs}
         got = {k: obs[k] for k in exp}
         if len(got["recs"]) != len(exp["recs"]):
             return f"model has {len(exp['recs'])} histories, implementation {len(got['recs'])}"
         return None if got == exp else f"model {exp} vs implementation {got}"
-    dt, decay, size, dur = tree
-    exp = {"dt": F.dec_float(dt), "size": size, "dur": F.dec_float(dur)}
-    got = {k: obs[k] for k in exp}
-    if got != exp:
-        return f"model {exp} vs implementation {got}"
-    return None if F.close(F.dec_float(decay), obs["decay"]) else f"decay: model {F.dec_float(decay)} vs implementation {obs['decay']}"
+    if fam == "tred_model":
+        dt, decay, size, dur = tree
+        exp = {"dt": F.dec_float(dt), "size": size, "dur": F.dec_float(dur)}
+        got = {k: obs[k] for k in exp}
+        if got != exp:
+            return f"model {exp} vs implementation {got}"
+        return None if F.close(F.dec_float(decay), obs["decay"]) else f"decay: model {F.dec_float(decay)} vs implementation {obs['decay']}"
+    if tree[0] != 0:
+        return f"the model's constructor refused the configuration: {tree}"
+    if fam == "record_model":
+        _, r0, tr, cfg, cleared, fresh = tree
+        if fresh[0] != 0:
+            return f"model: constructor refused the final configuration {fresh}"
+        if len(tr) != len(obs["trace"]):
+            return "trace lengths differ"
+        pairs = [("created", dec_rec(r0), obs["init"])]
+        pairs += [(f"after op {k} {c['ops'][k][:2]}", dec_rec(m), i) for k, (m, i) in enumerate(zip(tr, obs["trace"]))]
+        pairs += [("reported configuration vs expected", [F.dec_float(cfg[0]), F.dec_float(cfg[1]), cfg[2]], obs["reported"]),
+                  ("after reset", dec_rec(cleared), obs["cleared"]),
+                  ("fresh record", dec_rec(fresh[1]), obs["fresh"]),
+                  ("fresh record after reset", dec_rec(fresh[2]), obs["fresh_cleared"]),
+                  ("setter path after reset vs fresh record after reset (implementation)", obs["cleared"], obs["fresh_cleared"]),
+                  ("setter path after reset vs fresh record after reset (model)", dec_rec(cleared), dec_rec(fresh[2]))]
+        return first_diff(pairs)
+    if fam == "red_model":
+        _, r0, tr, cfg, cleared, fresh = tree
+        if fresh[0] != 0:
+            return f"model: constructor refused the final configuration {fresh}"
+        if len(tr) != len(obs["trace"]):
+            return "trace lengths differ"
+        d = red_eq(dec_red(r0), obs["init"], "constructed")
+        for k, (m, i) in enumerate(zip(tr, obs["trace"])):
+            d = d or red_eq(dec_red(m), i, f"after op {k} {c['ops'][k]}")
+        d = d or first_diff([("reported vs expected", [F.dec_float(cfg[0]), F.dec_float(cfg[1]), cfg[2]], obs["reported"])])
+        d = d or red_eq(dec_red(cleared), obs["cleared"], "after clear")
+        d = d or red_eq(dec_red(fresh[1]), obs["fresh"], "fresh reducer")
+        d = d or first_diff([("setter path cleared vs fresh (model)", dec_red(cleared), dec_red(fresh[1])),
+                             ("setter path cleared vs fresh (implementation)", obs["cleared"], obs["fresh"])])
+        return d
+    if fam == "scomp_model":
+        _, c0, tr, cfg, cleared, fresh = tree
+        if fresh[0] != 0:
+            return f"model: constructor refused the final configuration {fresh}"
+        ops = [o for o in c["ops"] if o[0] != "step"]
+        if len(tr) != len(obs["trace"]):
+            return "trace lengths differ"
+        pairs = [("constructed", dec_scomp(c0, True), obs["init"])]
+        pairs += [(f"after op {k} {ops[k]}", scomp_noptr(dec_scomp(m, False)), scomp_noptr(i))
+                  for k, (m, i) in enumerate(zip(tr, obs["trace"]))]
+        pairs += [("reported vs expected", [F.dec_float(cfg[0]), F.dec_float(cfg[1]), cfg[2], cfg[3]], obs["reported"]),
+                  ("after clear", dec_scomp(cleared, True), obs["cleared"]),
+                  ("fresh synapse after clear", dec_scomp(fresh[1], True), obs["fresh_cleared"]),
+                  ("setter path cleared vs fresh cleared (model)", dec_scomp(cleared, True), dec_scomp(fresh[1], True)),
+                  ("setter path cleared vs fresh cleared (implementation)", obs["cleared"], obs["fresh_cleared"])]
+        return first_diff(pairs)
+    if fam == "conn_model":
+        _, c0, tr, cfg, cleared, fresh = tree
+        if fresh[0] != 0:
+            return f"model: constructor refused the final configuration {fresh}"
+        ops = [o for o in c["ops"] if o[0] != "step"]
+        if len(tr) != len(obs["trace"]):
+            return "trace lengths differ"
+
+        def imp(x, full):
+            # [dt, batch, delayedby, class name, synapse snapshot, stray] -> the model's layout; the class is compared through
+            # the data types of the histories
+            syn = x[4] if full else scomp_noptr(x[4])
+            return [x[0], x[1], x[2], syn, x[5]], SYN_DS[x[3]]
+
+        def mod(t, full):
+            m = dec_conn(t, full)
+            if not full:
+                m[3] = scomp_noptr(m[3])
+            return m, [h[0][3] if full else h[2][1] for h in m[3][4]]
+        pairs = [("constructed", mod(c0, True), imp(obs["init"], True))]
+        pairs += [(f"after op {k} {ops[k]}", mod(m, False), imp(i, False)) for k, (m, i) in enumerate(zip(tr, obs["trace"]))]
+        ds, dt, dl, b, ip = cfg
+        pairs += [("reported vs expected", [ds, F.dec_float(dt), F.dec_float(dl), b, ip],
+                   [SYN_DS[obs["reported"][0]]] + obs["reported"][1:]),
+                  ("after clear", mod(cleared, True), imp(obs["cleared"], True)),
+                  ("cleared synapse vs fresh synapse cleared (model)", dec_conn(cleared, True)[3], dec_conn(fresh[1], True)[3]),
+                  ("cleared synapse vs fresh synapse cleared (implementation)", obs["cleared"][4], obs["fresh_syn_cleared"]),
+                  ("fresh synapse cleared", dec_conn(fresh[1], True)[3], obs["fresh_syn_cleared"])]
+        return first_diff(pairs)
+    if fam == "neuron_model":
+        _, n0, tr, bexp, fresh, cleared = tree
+        if obs["names"] != [n for n, _, _ in NEURON_TENSORS]:
+            return f"batched tensors of the neuron are {obs['names']}, the model assumes {[n for n, _, _ in NEURON_TENSORS]}"
+        if fresh[0] != 0:
+            return f"model: constructor refused the final batch size {fresh}"
+        vs = [v for v in c["ops"] if v != "step"]
+        if len(tr) != len(obs["trace"]):
+            return "trace lengths differ"
+        pairs = [("constructed", dec_nstate(n0), obs["init"])]
+        for k, (m, i) in enumerate(zip(tr, obs["trace"])):
+            m = dec_nstate(m)
+            pairs.append((f"after batchsz = {vs[k]}", m, i) if vs[k] > 0 else
+                         (f"after refused batchsz = {vs[k]}", nstate_noflat(m), nstate_noflat(i)))
+        pairs += [("expected batch size", bexp, obs["cleared"][0]),
+                  ("after clear", dec_nstate(cleared), obs["cleared"]),
+                  ("fresh neuron", dec_nstate(fresh[1]), obs["fresh"]),
+                  ("setter path cleared vs fresh (model)", dec_nstate(cleared), dec_nstate(fresh[1])),
+                  ("setter path cleared vs fresh (implementation)", obs["cleared"], obs["fresh"])]
+        return first_diff(pairs)
+    raise ValueError(fam)
 
 
 def run(ctx):
     rng = random.Random(ctx["seed"])
     quick = ctx["tier"] == "quick"
     rel = gen_rel_cases(rng, 250 if quick else 3000)
-    mod = gen_model_cases(rng, 120 if quick else 1200)
+    mod = gen_model_cases(rng, 80 if quick else 800) + gen_ext_model_cases(rng, 200 if quick else 2500)
     k = 8
     allc = rel + mod
     shards = [allc[i::k] for i in range(k)]
@@ -142,15 +525,26 @@ def run(ctx):
     fails = [{"case": c, "detail": {a: b for a, b in r.items() if a != "trace"},
               "signature": {"kind": r.get("what", "?"), "family": c["family"], "attr": r.get("attr")}}
              for c, r in zip(rel, res[:len(rel)]) if not r["ok"]]
-    trees = F.eval_terms(ID, HEADER, [q_model(c) for c in mod], shard=60)
+    mres = res[len(rel):]
+    terms, live = [], []
     mism = []
-    for c, r, t in zip(mod, res[len(rel):], trees):
-        if isinstance(t, Exception) or not r.get("ok"):
-            mism.append({"case": c, "detail": str(t) if isinstance(t, Exception) else r})
+    for c, r in zip(mod, mres):
+        if not r.get("ok"):
+            mism.append({"case": c, "detail": r})
             continue
-        d = cmp_model(c, r["obs"], t)
+        terms.append(q_model(c, r))
+        live.append((c, r))
+    trees = F.eval_terms(ID, HEADER, terms, shard=40)
+    for (c, r), t in zip(live, trees):
+        if isinstance(t, Exception):
+            mism.append({"case": c, "detail": str(t)})
+            continue
+        try:
+            d = cmp_model(c, r["obs"], t)
+        except Exception as e:  # noqa
+            d = f"comparison failed: {type(e).__name__}: {e}"
         if d:
-            mism.append({"case": c, "detail": d})
+            mism.append({"case": c, "detail": d[:1500]})
     dist = Counter(c["family"] + ":" + c["specA"]["cls"] for c in rel)
     return {
         "evaluations": len(allc),
@@ -158,7 +552,11 @@ def run(ctx):
         "rule": "relational cases: (class, configuration A, 1-4 attribute assignments in random order, optional warm-up steps) compared "
                 "with a fresh component of the target configuration (getters, frame after every assignment, internal history sizes, "
                 "12-25 steps of outputs); model cases: random setter sequences whose resulting history sizes/decay are compared with "
-                "the Coq model evaluated in binary64; distinct by full case text",
+                "the Coq model evaluated in binary64; extended model cases (RecordTensor / reducer / synapse with contents / "
+                "connection / neuron batch size): random setter sequences incl. refused values, observations, clears and steps, "
+                "every intermediate state (sizes, shapes, constraints, reported attributes) and the final cleared state incl. "
+                "contents compared with the Coq models, and setter path vs fresh object on both sides; distinct by full case text",
+        "model_family_distribution": dict(Counter(c["family"] for c in mod)),
         "samples": [rel[0], mod[0]], "class_distribution": dict(dist),
         "attr_distribution": dict(Counter(a for c in rel for a in c["order"])),
         "mismatches": mism, "oracle_failures": fails,
